@@ -536,6 +536,15 @@ def lean_str(s):
     return '"' + s.replace("\\", "\\\\").replace('"', '\\"') + '"'
 
 
+def lean_prefix(p):
+    if not p:
+        return "none"
+    m = re.fullmatch(r"(\w+)::(\w+)", p.replace(" ", ""))
+    if not m:
+        raise TranslateError("prefix %r is not Enum::Variant" % p)
+    return "some (%s, %s)" % (lean_str(m.group(1)), lean_str(m.group(2)))
+
+
 def lean_fields(fs, rel):
     return "[" + ", ".join("⟨%s, %s, %s, %s⟩" % (lean_str(n), lean_str(t), parse_ty(t, rel), "true" if sk else "false") for n, t, sk in fs) + "]"
 
@@ -607,8 +616,8 @@ def main():
     L.append("")
     L.append("structure StructRow where")
     L.append("  name : String")
-    L.append("  /-- text of `#[canonical(prefix = ..)]` -/")
-    L.append("  pre : Option String")
+    L.append("  /-- `#[canonical(prefix = Enum::Variant)]` as (enum, variant) -/")
+    L.append("  pre : Option (String × String)")
     L.append("  fields : List FieldRow")
     L.append("  deriving DecidableEq, Repr, Inhabited")
     L.append("")
@@ -627,7 +636,7 @@ def main():
     structs = [it for it in list(items.values()) + macs if it["kind"] == "struct"]
     enums = [it for it in items.values() if it["kind"] == "enum"]
     L.append("def structs : List StructRow := [")
-    L.append(",\n".join("  ⟨%s, %s, %s⟩" % (lean_str(s["gen_name"]), ("some " + lean_str(s["prefix"])) if s["prefix"] else "none", lean_fields(s["fields"], s["file"]))
+    L.append(",\n".join("  ⟨%s, %s, %s⟩" % (lean_str(s["gen_name"]), lean_prefix(s["prefix"]), lean_fields(s["fields"], s["file"]))
                         for s in sorted(structs, key=lambda s: s["gen_name"])))
     L.append("]")
     L.append("")
